@@ -286,6 +286,8 @@ def worldOp (st : Option DState) (op : String) (args tr : List String) : Option 
       if r.ok then
         (some d, "rv=1 " ++ showMsg { code := 1, id := 1, auth := zeros 16, attrs := r.attrs })
       else (some d, "rv=0")
+  | "locks", _, st => (st, "locks")        -- observations of the real code only: nothing to predict
+  | "rxeval", _, st => (st, "rxeval")
   | _, _, some d =>
     let (w, out) := worldOp1 (some d.w) op args tr
     ((w.map fun w => { d with w := w }), out)
